@@ -36,4 +36,26 @@ theorem journal_shape_only_sum (C : Curve) (ser : List UInt8) (s1 s2 : List Nat)
   unfold deserializeSpendJournalEntry
   simp only [h]
 
+theorem blockIndexKey_injective (h h' : List UInt8) (n n' : Nat) (hl : h.length = 32) (hl' : h'.length = 32)
+    (hn : n < 2 ^ 32) (hn' : n' < 2 ^ 32) (e : blockIndexKey h n = blockIndexKey h' n') : h = h' ∧ n = n' := by
+  unfold blockIndexKey at e
+  rw [copyInto_exact 32 _ hl, copyInto_exact 32 _ hl'] at e
+  have l1 : ((leBytes 4 n).reverse).length = 4 := by rw [List.length_reverse, leBytes_length]
+  have l2 : ((leBytes 4 n').reverse).length = 4 := by rw [List.length_reverse, leBytes_length]
+  have e1 : (leBytes 4 n).reverse = (leBytes 4 n').reverse := by
+    have := congrArg (List.take 4) e
+    rwa [List.take_left' l1, List.take_left' l2] at this
+  have e2 : h = h' := by rw [e1] at e; exact List.append_cancel_left e
+  have e3 : leBytes 4 n = leBytes 4 n' := by
+    have := congrArg List.reverse e1
+    rwa [List.reverse_reverse, List.reverse_reverse] at this
+  have := congrArg leVal e3
+  rw [leVal_leBytes, leVal_leBytes, Nat.mod_eq_of_lt (by omega : n < 256 ^ 4),
+    Nat.mod_eq_of_lt (by omega : n' < 256 ^ 4)] at this
+  exact ⟨e2, this⟩
+
+theorem blockIndexKey_length (h : List UInt8) (n : Nat) (hl : h.length = 32) : (blockIndexKey h n).length = 36 := by
+  unfold blockIndexKey
+  rw [List.length_append, List.length_reverse, leBytes_length, copyInto_exact 32 _ hl, hl]
+
 end BV.C15.Lemmas
